@@ -824,7 +824,7 @@ pub fn run(tier: Tier) -> i32 {
     // recovery class: a connection added after a dirty session was removed behaves like one on a fresh server
     if rep.machinery.is_none() {
         let cases = reconnect_cases();
-        let res = explore::par_cases(cases.len(), |i| reconnect_case(cases[i].0, cases[i].1, cases[i].2));
+        let res = explore::par_cases(cases.len(), |i| reconnect_case(cases[i].0, cases[i].1, cases[i].2, cases[i].3));
         let mut steps = 0u64;
         for (i, r) in res.into_iter().enumerate() {
             match r {
@@ -832,7 +832,7 @@ pub fn run(tier: Tier) -> i32 {
                 Err(v) => rep.violation("reconnect", v, J::obj().set("kind", J::s("reconnect")).set("case", J::i(i as u64))),
             }
         }
-        rep.add_sweep("reconnect", cases.len() as u64, cases.len() as u64, RECONNECT_RECIPES.len() as u64, vec![format!("{} cases: {} states an earlier session is left in x (same id / another id added with add_connection, same id via new_local_client); the new session's standard exchange equals the one on a fresh server ({} library calls)", cases.len(), RECONNECT_RECIPES.len(), steps)]);
+        rep.add_sweep("reconnect", cases.len() as u64, cases.len() as u64, RECONNECT_RECIPES.len() as u64, vec![format!("{} cases: {} states an earlier session is left in x (same id / another id added with add_connection, same id via new_local_client) x (earlier session remote and removed / a local client ended by disconnect_local_client); the new session's standard exchange (unicasts both ways, broadcast, broadcast_except) equals the one on a fresh server ({} library calls)", cases.len(), RECONNECT_RECIPES.len(), steps)]);
         rep.transitions += steps;
     }
     rep.finish()
@@ -853,9 +853,9 @@ pub const RECONNECT_RECIPES: [&str; 9] = [
     "all of the above",
 ];
 
-pub fn reconnect_case(recipe: usize, same_id: bool, via_local_client: bool) -> Result<u64, Violation> {
+pub fn reconnect_case(recipe: usize, same_id: bool, via_local_client: bool, old_local: bool) -> Result<u64, Violation> {
     let bad = |sig: &str, msg: String| {
-        Violation::new(format!("C11/reconnect/{}", sig), format!("earlier session left: {}; {} id reconnects: {}", RECONNECT_RECIPES[recipe], if same_id { "the same" } else { "another" }, msg))
+        Violation::new(format!("C11/reconnect/{}", sig), format!("earlier session ({}) left: {}; {} id reconnects{}: {}", if old_local { "a local client, ended by disconnect_local_client" } else { "added by add_connection, ended by remove_connection" }, RECONNECT_RECIPES[recipe], if same_id { "the same" } else { "another" }, if via_local_client { " as a local client" } else { "" }, msg))
     };
     let dt = Duration::from_millis(DT);
     let mut steps = 0u64;
@@ -870,6 +870,10 @@ pub fn reconnect_case(recipe: usize, same_id: bool, via_local_client: bool) -> R
                     guard("send_message", || srv.send_message(id, ch, down))?;
                     guard("client send_message", || peer.send_message(ch, up))?;
                 }
+                let b1 = body(300 + round, ch, true, 0, 11);
+                let b2 = body(310 + round, ch, true, 0, 1300);
+                guard("broadcast_message", || srv.broadcast_message(ch, b1))?;
+                guard("broadcast_message_except", || srv.broadcast_message_except(id + 1000, ch, b2))?;
             }
             for _ in 0..5 {
                 guard("exchange tick", || {
@@ -911,16 +915,21 @@ pub fn reconnect_case(recipe: usize, same_id: bool, via_local_client: bool) -> R
         exchange(&mut srv, 7, &mut peer, &mut n)?
     };
     for (i, g) in reference.iter().enumerate() {
-        if g.len() != 6 {
-            return Err(bad("fixture", format!("reference exchange delivered {} of 6 messages on stream {}", g.len(), i)));
+        if g.len() != if i < 3 { 6 } else { 12 } {
+            return Err(bad("fixture", format!("reference exchange delivered {} of {} messages on stream {}", g.len(), if i < 3 { 6 } else { 12 }, i)));
         }
     }
     // the dirty session
     let old_id = 7u64;
     let mut srv = RenetServer::new(config());
-    srv.add_connection(old_id);
-    let mut old = RenetClient::new(config());
-    old.set_connected();
+    let mut old;
+    if old_local {
+        old = guard("new_local_client", || srv.new_local_client(old_id))?;
+    } else {
+        srv.add_connection(old_id);
+        old = RenetClient::new(config());
+        old.set_connected();
+    }
     let parts: Vec<usize> = if recipe == 8 { (0..8).collect() } else { vec![recipe] };
     for part in parts {
         guard("dirty session", || {
@@ -988,7 +997,12 @@ pub fn reconnect_case(recipe: usize, same_id: bool, via_local_client: bool) -> R
     }
     steps += 20;
     while srv.get_event().is_some() {}
-    guard("remove_connection", || srv.remove_connection(old_id))?;
+    if old_local {
+        guard("disconnect_local_client", || srv.disconnect_local_client(old_id, &mut old))?;
+        while srv.get_event().is_some() {}
+    } else {
+        guard("remove_connection", || srv.remove_connection(old_id))?;
+    }
     let new_id = if same_id { old_id } else { 8 };
     let mut peer;
     if via_local_client {
@@ -1012,6 +1026,10 @@ pub fn reconnect_case(recipe: usize, same_id: bool, via_local_client: bool) -> R
                     guard("send_message", || srv.send_message(new_id, ch, down))?;
                     guard("client send_message", || peer.send_message(ch, up))?;
                 }
+                let b1 = body(300 + round, ch, true, 0, 11);
+                let b2 = body(310 + round, ch, true, 0, 1300);
+                guard("broadcast_message", || srv.broadcast_message(ch, b1))?;
+                guard("broadcast_message_except", || srv.broadcast_message_except(new_id + 1000, ch, b2))?;
             }
             for _ in 0..5 {
                 guard("local tick", || {
@@ -1052,13 +1070,19 @@ pub fn reconnect_case(recipe: usize, same_id: bool, via_local_client: bool) -> R
     Ok(steps)
 }
 
-pub fn reconnect_cases() -> Vec<(usize, bool, bool)> {
+pub fn reconnect_cases() -> Vec<(usize, bool, bool, bool)> {
     let mut v = vec![];
     for recipe in 0..RECONNECT_RECIPES.len() {
         for same in [true, false] {
-            v.push((recipe, same, false));
+            v.push((recipe, same, false, false));
         }
-        v.push((recipe, true, true));
+        v.push((recipe, true, true, false));
+    }
+    // the earlier session was a local client that left through disconnect_local_client
+    for recipe in 0..RECONNECT_RECIPES.len() {
+        v.push((recipe, true, false, true));
+        v.push((recipe, true, true, true));
+        v.push((recipe, false, false, true));
     }
     v
 }
@@ -1203,8 +1227,8 @@ pub fn replay(j: &J) -> i32 {
         let cases = reconnect_cases();
         let i = j.get("case").and_then(|x| x.as_i()).unwrap_or(0) as usize;
         let Some(c) = cases.get(i) else { return 2 };
-        println!("reconnect case: earlier session left '{}', same id {}, via local client {}", RECONNECT_RECIPES[c.0], c.1, c.2);
-        return match reconnect_case(c.0, c.1, c.2) {
+        println!("reconnect case: earlier session left '{}', same id {}, via local client {}, earlier session local {}", RECONNECT_RECIPES[c.0], c.1, c.2, c.3);
+        return match reconnect_case(c.0, c.1, c.2, c.3) {
             Err(v) => {
                 println!("RESULT: violation {} — {}", v.signature, v.message);
                 1
